@@ -362,7 +362,7 @@ def _followup(g, ref, cells, out, what, **detail):
         b = b[idx] if b.ndim == 1 else b[:, idx]
         ok, dev = _close(getattr(h, attr), b, sc)
         if not ok:
-            out.violate(f"{what} followed by extract_subgrid on the same grid object: recomputed {attr} differs from the pristine grid", cells=cells, deviation=dev, scale=sc, **detail)
+            out.violate(f"{what} followed by extract_subgrid on the same grid object: recomputed {attr} differs from the pristine grid", cells=cells, deviation=dev, length_scale=sc, **detail)
             return False
     return True
 
